@@ -27,6 +27,14 @@ def c15_classify(inp, out):
     return ks
 
 
+def c19_classify(inp, out):
+    ks = []
+    for op, o in zip(inp.split(";"), out.split("|")):
+        ks.append("op:" + op.split(" ")[0])
+        ks.append("out:" + o.split(" ")[0].rstrip("0123456789"))
+    return ks
+
+
 PROPS = {
     "C11": {
         "lean_files": ["AriesVerif/C11/Spec.lean", "AriesVerif/C11/Model.lean", "AriesVerif/C11/Props.lean",
@@ -57,5 +65,24 @@ PROPS = {
                          "encoding/json of the inbox document (modelled as the list + count it carries)"],
         "assumptions": ["handlers are driven synchronously through the verif hook (goroutine dispatch of HandleInbound is C13/C03)",
                         "single fault per operation, as the property quantifies"],
+    },
+    "C19": {
+        "lean_files": ["AriesVerif/C19/Spec.lean", "AriesVerif/C19/Model.lean", "AriesVerif/C19/Props.lean",
+                       "AriesVerif/C19/Drv.lean"],
+        "lake_targets": ["AriesVerif"],
+        "classify": c19_classify,
+        "nontrivial": lambda inp, out: "tok1" in out and ("val " in out or "ids " in out) and "locked" in out,
+        "shrink": {"field_sep": "|", "op_sep": ";", "fields": [0]},
+        "thorough_seeds": 2,
+        "case_timeout": 120,
+        "rule": "seeded multi-profile histories (2-3 profiles; create / open / open with short expiry / wrong passphrase / close / "
+                "expire / add / get / getall / remove / keypair), every content or key operation with a token drawn from ALL tokens "
+                "issued so far (own, foreign, closed, expired), garbage or not-yet-issued; non-trivial = at least two wallets were "
+                "opened, a read returned data and an operation was refused; distinct (input, outcome) pairs",
+        "trusted_base": ["gcache expiry (real clock: 150 ms expiry, 420 ms sleep)", "localkms / hkdf secret lock (passphrase check)",
+                         "harness-owned in-memory provider whose stores survive Close"],
+        "assumptions": ["one wallet.New instance per operation (as the REST/command controllers do)",
+                        "Metadata content type stands for all content types (same contentStore code path)",
+                        "DidComm wrapper methods are out of scope (they delegate to the guarded Wallet methods)"],
     },
 }
